@@ -10,9 +10,14 @@ package main
 import "fmt"
 
 func longChainRollbacks(maxL int, cfg Cfg) (pairs int, fail string) {
+	return longChainRollbacksWith(maxL, cfg)
+}
+
+// longChainRollbacksWith: the same family with additional state oracles (C12: the storage oracle).
+func longChainRollbacksWith(maxL int, cfg Cfg, extra ...Oracle) (pairs int, fail string) {
 	keys := bs("a", "ab", "b")
 	probes := probesFor(keys)[:7]
-	oracles := []Oracle{oracleReads(probes), oracleHashes(), oracleFast(probes), oracleVersionsLive([]byte("a"))}
+	oracles := append([]Oracle{oracleReads(probes), oracleHashes(), oracleFast(probes), oracleVersionsLive([]byte("a"))}, extra...)
 	check := func(w *World, what string) string {
 		for _, o := range oracles {
 			o := o
